@@ -52,6 +52,11 @@ CLAIMED.update({
             "Every operation in the constant-product arm of compute_swap that can abort matches a discharge pattern (operation + operand "
             "provenance + arithmetic reason); three fees are computed from one gross amount on the three pool_fees fields and all subtracted; "
             "response fields carry the like-named values. Exact price, there-and-back and range claims are numerical: not decided.", "§4 C01-C05"),
+    "C03": ("operand-wiring provenance of the stableswap paths (positional arguments, scaling, direction/decimals tables, index agreement)",
+            "WIRING ONLY: calculate_stableswap_y receives offer/ask reserves and the offer amount scaled with the right precisions, the pair's amp and the ask precision; "
+            "gross = ask reserve - new pool; three fees on the gross, all subtracted; swap and simulation select reserves and decimals by one direction table; the stableswap "
+            "mint helper and compute_d receive deposits[0..1], pools[0..1] in matching order. The numerical content of C03 (invariant accuracy, monotone proceeds, rounding dust, "
+            "mint bound) is NOT decided by any static argument available here.", "§4 C03 / §10.5"),
     "C04": ("sample-point evaluation of the ramp guard (symbolic evaluation of guard expressions + CFG walk) + field-source tracing + direction tables",
             "The amp ramp is accepted exactly for 1 <= a <= 10^6, 1/10 <= a/current <= 10 and >= 10000 blocks (one sample per region, "
             "guard expressions evaluated symbolically); on acceptance initial_amp := current amp, initial block := height, targets := request; "
@@ -92,10 +97,7 @@ CLAIMED.update({
             "an amount depending on asset_history and claimed_amount to the flow creator and removes the flow.", "§4 C12"),
 })
 
-NOT_APPLICABLE = {
-    "C03": "wholly numerical (Newton convergence vs an independent high-precision solution over magnitudes and decimals); no sound "
-           "static argument in reach bounds those runtime quantities; the shared code sites' structural clauses are decided under C01/C07/C14",
-}
+NOT_APPLICABLE = {}
 
 PENDING = "check for the structural clauses of this property (DESIGN.md §4) is not built yet in this round; not claimed until it is"
 
